@@ -628,6 +628,22 @@ def probe_split_exponential(ctx, f, t, cuts):
             fail("raises: %r" % (e,))
             return 0
         ld = [(float(s.path_length), float(s.tof), U.fl(s.emitted_direction), U.fl(s.received_direction), s.fresnel, U.cancellation_bound(s)) for s in ls]
+        if f[0] == t[0] and f[1] == t[1] and f[2] != t[2] and f[2] < 0 and t[2] < 0:
+            # exactly vertical pair: closed forms.  The direct ray is the vertical segment (length |dz|, direction (0,0,+-1)), the
+            # second solution goes straight up to the surface and back down (length |z0| + |z1|).  Both the one-medium tracer
+            # and the split stack must report exactly these two (beta = 0: the tracer's own beta = 0 forms are exact).
+            want = [(abs(t[2] - f[2]), math.copysign(1.0, t[2] - f[2]), math.copysign(1.0, t[2] - f[2])), (abs(f[2]) + abs(t[2]), 1.0, -1.0)]
+            for label, sols in (("one-medium tracer", [(float(s.path_length), U.fl(s.emitted_direction), U.fl(s.received_direction)) for s in us]),
+                                ("split stack", [(d[0], d[2], d[3]) for d in ld])):
+                for wl, wez, wrz in want:
+                    ok_ = [x for x in sols if abs(x[0] - wl) <= 1e-9 * (1 + wl) and abs(x[1][2] - wez) <= 1e-9 and abs(x[2][2] - wrz) <= 1e-9
+                           and math.hypot(x[1][0], x[1][1]) <= 1e-9]
+                    if not ok_:
+                        fail("vertical: the %s lacks the vertical solution of length %r (emitted z %+g, received z %+g); it reports %r" % (
+                            label, wl, wez, wrz, [(x[0], x[1][2]) for x in sols]), solution=label)
+            if len(us) != 2:
+                fail("vertical-count: the one-medium tracer reports %d solutions for an exactly vertical pair (two exist)" % len(us))
+            return len(ls)
         for k, s in enumerate(us):
             L, tof, em, rc = float(s.path_length), float(s.tof), U.fl(s.emitted_direction), U.fl(s.received_direction)
             uf = s.fresnel
@@ -694,6 +710,17 @@ def probes_split(ctx, scale):
     # a cut at -800 m: every section arriving there from below ends exactly on its layer's (clipped) z_uniform
     n2 += probe_split_exponential(ctx, [0.0, 0.0, -1000.0], [400.0, 0.0, -150.0], [-800.0])
     n2 += probe_split_exponential(ctx, [400.0, 0.0, -150.0], [0.0, 0.0, -1000.0], [-800.0])
+    # exactly vertical pairs, upward and downward, shallow and across the cuts
+    for zf, zt, cuts_v in ((-500.0, -100.0, [-300.0]), (-100.0, -500.0, [-300.0]), (-900.0, -50.0, [-800.0, -200.0]), (-50.0, -900.0, [-800.0])):
+        n2 += probe_split_exponential(ctx, [10.0, 20.0, zf], [10.0, 20.0, zt], cuts_v)
+    for _ in range(ctx.n(4, 60) * scale):
+        za, zb = round(rng.uniform(-1200, -5), 1), round(rng.uniform(-1200, -5), 1)
+        if za == zb:
+            continue
+        ox, oy = float(rng.choice([0.0, 120.0, -45.5])), float(rng.choice([0.0, -33.0]))
+        cuts_v = sorted({-float(round(rng.uniform(10, 1000), 0)) for _ in range(rng.choice([1, 2]))})
+        ctx.case(key=("split_exp_vertical", za, zb, tuple(cuts_v)), sample={"probe": "split_exp_vertical", "from": [ox, oy, za], "to": [ox, oy, zb], "cuts": cuts_v})
+        n2 += probe_split_exponential(ctx, [ox, oy, za], [ox, oy, zb], cuts_v)
     for it in range(ctx.n(14, 220) * scale):
         deep = it % 2 == 1          # every second case: a cut at / around / below z_uniform with a ray that crosses it
         if deep:
